@@ -120,7 +120,8 @@ def parse_eval(ctx, out, nrows):
 
 def report(ctx, o, why, seed, n):
     small = {k: v for k, v in o.items() if k not in ("output",)}
-    path = ctx.write_replay("case%s-seed%d" % (o["id"], seed), {
+    tag = "case%s" % o["id"] if o.get("kind", "script") == "script" else "%s-%s" % (o["kind"], o["id"])
+    path = ctx.write_replay("%s-seed%d" % (tag, seed), {
         "property": "C16", "what": why, "input": {"kind": o.get("kind", "script"), "id": o["id"], "seed": seed, "n": n},
         "observed": small, "replay_cmd": "bin/check C16 --replay <this file>"})
     key = "%s:%s" % (o.get("kind", "script"), o.get("class", ""))
@@ -270,14 +271,14 @@ IDX_CHUNKED = len(CMDS) - 1
 CHUNKS = {IDX_CHUNKED: 3}
 
 
-def cmd_runs(ctx, idxs, delay_ms=700):
+def cmd_runs(ctx, idxs, delay_ms=700, tag=""):
     """Every scan command of the real binary with --exit-delay D in a private netns: the process must live at least D
     (wall time from before it is started to after it has exited: at least exit - done)."""
     rows = []
     exe = build_sx(ctx)
     if not exe:
         return rows
-    ns = "vc16m%d" % os.getpid()
+    ns = "vc16m%d%s" % (os.getpid(), tag)
     arp = os.path.join(ctx.work, "arp.cache")
     with open(arp, "w") as f:
         f.write('{"ip":"10.78.0.2","mac":"02:00:00:c1:60:02"}\n')
@@ -313,6 +314,133 @@ def cmd_runs(ctx, idxs, delay_ms=700):
     return rows
 
 
+# ---------------------------------------------------------------- instant stages: option value, receiver latency
+def parse_stage(ctx):
+    """--exit-delay D through every command's own flag set + parseRawOptions (hook): the value handed to withExitDelay."""
+    ok, _ = ctx.harness_run("c16", ["-parse", "-out", "parse.jsonl"], timeout=60)
+    return ctx.read_jsonl(os.path.join(ctx.work, "parse.jsonl")) if ok else []
+
+
+def spec_parse(o):
+    if o.get("err"):
+        return "sx %s --exit-delay %s is rejected: %s" % (o["cmd"], o["arg"], o["err"])
+    if o["got_ns"] != o["want_ns"]:
+        if not o["given"]:
+            return "sx %s without --exit-delay: the scan would wait %d ns, not the default 300 ms" % (o["cmd"], o["got_ns"])
+        return ("sx %s --exit-delay %s: the exit delay that reaches startScanEngine is %d ns, not %d ns"
+                % (o["cmd"], o["arg"], o["got_ns"], o["want_ns"]))
+    return None
+
+
+def rx_stage(ctx, max_n):
+    """Real packet.NewReceiver over a reader that is quiet (N temporary errors in a row) and then has a frame."""
+    ok, _ = ctx.harness_run("c16", ["-rx", max_n, "-out", "rx.jsonl"], timeout=120)
+    return ctx.read_jsonl(os.path.join(ctx.work, "rx.jsonl")) if ok else []
+
+
+def spec_rx(o):
+    """A reply must reach the processor as soon as it is readable, however long the source was quiet before: the delay
+    after N consecutive temporary read errors must stay below 60 ms (it is microseconds when reads are retried at once)."""
+    if not o["processed_at"]:
+        return ("receiver: after %d consecutive %s read errors a frame that was readable at %d ms did not reach the processor "
+                "within 8 s" % (o["n"], o["err_kind"], o["frame_at"] // MS))
+    d = o["processed_at"] - o["frame_at"]
+    if d > 60 * MS:
+        return ("receiver: after %d consecutive %s read errors (a quiet wire) a frame that was readable at %d ms reached the "
+                "processor %d ms later; a reply in the last %d ms of the exit delay would be lost"
+                % (o["n"], o["err_kind"], o["frame_at"] // MS, d // MS, d // MS))
+    return None
+
+
+def quiet_phase_runs(ctx, quiets_ms=(3500, 4600), delay_ms=400, after_ms=100):
+    """`sx arp --rate 1/<Q>ms --exit-delay 400ms 10.78.0.0/31`: two probes Q ms apart with a silent wire in between
+    (dozens of empty polls); the responder ignores the first request and answers the second 100 ms after it saw it.
+    The reply is 300 ms inside the exit delay and must be printed.  One namespace per run, side by side."""
+    from concurrent.futures import ThreadPoolExecutor
+    exe = build_sx(ctx)
+    if not exe:
+        return []
+    tool = os.path.join(verif.HBIN, "c16")
+
+    def one(n, q):
+        ns = "vc16q%d_%d" % (os.getpid(), n)
+        o = {"kind": "quietphase", "class": "quietphase", "id": n, "quiet_ms": q, "delay_ms": delay_ms, "reply_after_ms": after_ms,
+             "cmd": "sx arp -i v0 --rate 1/%dms --exit-delay %dms 10.78.0.0/31" % (q, delay_ms)}
+        setup = [["ip", "netns", "add", ns],
+                 ["ip", "-n", ns, "link", "add", "v0", "type", "veth", "peer", "name", "v1"],
+                 ["ip", "-n", ns, "link", "set", "lo", "up"], ["ip", "-n", ns, "link", "set", "v0", "up"],
+                 ["ip", "-n", ns, "link", "set", "v1", "up"], ["ip", "-n", ns, "addr", "add", "10.78.0.9/24", "dev", "v0"]]
+        try:
+            for cmd in setup:
+                rc, out = verif.sh(cmd, timeout=20)
+                if rc != 0:
+                    o["err"] = "cannot set up a network namespace: " + out.strip()[:200]
+                    return o
+            time.sleep(0.3)
+            respf = os.path.join(ctx.work, "respq_%d.jsonl" % n)
+            resp = subprocess.Popen(["ip", "netns", "exec", ns, tool, "-respond", "v1", "-ip", "any", "-skip", "1", "-after",
+                                     "%dms" % after_ms, "-out", respf, "-total", "25s"],
+                                    stdout=subprocess.PIPE, stderr=subprocess.STDOUT, text=True, cwd=ctx.work)
+            if resp.stdout.readline().strip() != "ready":
+                o["err"] = "responder did not start"
+                resp.kill()
+                return o
+            p = subprocess.run(["ip", "netns", "exec", ns, exe, "arp", "-i", "v0", "--rate", "1/%dms" % q, "--exit-delay",
+                                "%dms" % delay_ms, "10.78.0.0/31"], stdout=subprocess.PIPE, stderr=subprocess.PIPE, text=True,
+                               timeout=60)
+            o["exit_unix_ns"], o["stdout"], o["sx_rc"] = time.time_ns(), p.stdout[-1000:], p.returncode
+            if p.returncode != 0:
+                o["err"] = "sx arp failed: " + p.stderr.strip()[-300:]
+            resp.wait(timeout=40)
+            got = ctx.read_jsonl(respf) if os.path.exists(respf) else []
+            if got and got[0].get("reply_sent_unix_ns"):
+                o.update({"last_probe_unix_ns": got[0]["last_probe_unix_ns"], "probes": got[0]["probes"],
+                          "reply_sent_unix_ns": got[0]["reply_sent_unix_ns"], "reply_mac": got[0]["reply_mac"]})
+            elif not o.get("err"):
+                o["err"] = "the responder saw no second request"
+        except Exception as e:  # noqa: BLE001
+            o["err"] = "quiet-phase run failed: %r" % (e,)
+        finally:
+            verif.sh(["ip", "netns", "del", ns], timeout=20)
+        return o
+
+    with ThreadPoolExecutor(max_workers=len(quiets_ms)) as ex:
+        return list(ex.map(lambda a: one(*a), enumerate(quiets_ms)))
+
+
+def quiet_missed(o):
+    if o.get("err"):
+        return False
+    if o["reply_sent_unix_ns"] - o["last_probe_unix_ns"] > (o["delay_ms"] - LATE_MARGIN_MS) * MS:
+        return False
+    return o["reply_mac"] not in o["stdout"].lower()
+
+
+def spec_quietphase(o):
+    if quiet_missed(o):
+        return ("%s: after %d ms of silence on the wire, the reply put on the wire %d ms after the last probe (%d ms before the "
+                "exit delay ran out) was not reported%s; output %r"
+                % (o["cmd"], o["quiet_ms"], (o["reply_sent_unix_ns"] - o["last_probe_unix_ns"]) // MS,
+                   o["delay_ms"] - (o["reply_sent_unix_ns"] - o["last_probe_unix_ns"]) // MS,
+                   " (again when repeated)" if o.get("confirmed") else "", o["stdout"][:120]))
+    return None
+
+
+def quiet_phase_confirmed(ctx):
+    rows = quiet_phase_runs(ctx)
+    missed = [o for o in rows if quiet_missed(o)]
+    if missed:
+        again = quiet_phase_runs(ctx, quiets_ms=tuple(o["quiet_ms"] for o in missed))
+        if any(quiet_missed(a) for a in again):
+            for o in missed:
+                o["confirmed"] = True
+        else:
+            ctx.info.append("quiet-phase e2e: a reply was missed once and reported when repeated (not a finding)")
+            for o, a in zip(missed, again):
+                o["stdout"] = a.get("stdout", o["stdout"]) if not a.get("err") else o["reply_mac"]
+    return rows
+
+
 def spec_cmd(o):
     if o.get("err"):
         return None
@@ -337,6 +465,39 @@ def spec_e2e(o):
         return ("sx arp --exit-delay %dms exited %d ms after its last probe was on the wire"
                 % (o["delay_ms"], (o["exit_unix_ns"] - o["last_probe_unix_ns"]) // MS))
     return None
+
+
+def deep_stage(ctx, n, long_run=True):
+    """Expensive wall-clock runs (thorough tier and failing-input search): a long quiet phase before the last probe, and
+    an exit delay above ten seconds."""
+    from concurrent.futures import ThreadPoolExecutor
+    bad = 0
+    with ThreadPoolExecutor(max_workers=3) as ex:
+        fq = ex.submit(quiet_phase_confirmed, ctx)
+        fls = [ex.submit(cmd_runs, ctx, [i], 12000, "L%d" % i) for i in (0, 3)] if long_run else []
+        qrows = fq.result()
+        lrows = [o for f in fls for o in f.result()]
+    for o in qrows:
+        if o.get("err"):
+            ctx.skipped.append("quiet-phase e2e: " + o["err"])
+            continue
+        ctx.count("quietphase:%dms" % o["quiet_ms"], ("quietphase", o["quiet_ms"], o["exit_unix_ns"]), nontrivial=True,
+                  sample={"cmd": o["cmd"], "stdout": o["stdout"][:80]})
+        why = spec_quietphase(o)
+        if why:
+            bad += 1
+            report(ctx, o, why, ctx.seed, n)
+    for o in lrows:
+        if o.get("err"):
+            ctx.skipped.append("sx %s --exit-delay 12s: %s" % (o["cmd"], o["err"]))
+            continue
+        ctx.count("cmd12s:" + o["cmd"], ("cmd12", o["cmd"], o["wall_ns"]), nontrivial=True,
+                  sample={"cmd": "sx %s --exit-delay 12s" % o["cmd"], "wall_ms": o["wall_ns"] // MS})
+        why = spec_cmd(o)
+        if why:
+            bad += 1
+            report(ctx, o, why, ctx.seed, n)
+    return bad
 
 
 def run(ctx):
@@ -371,6 +532,24 @@ def run(ctx):
         why = spec_on_impl(o)
         if why and len(ctx.findings) < 3:
             report(ctx, o, why, ctx.seed, n)
+    if os.path.exists(os.path.join(verif.HBIN, "c16")):
+        prow = parse_stage(ctx)
+        if not prow:
+            ctx.broken.append(("correspondence: the option-value stage produced nothing", ""))
+        for o in prow:
+            ctx.count("parse:" + o["cmd"], ("parse", o["cmd"], o["arg"], o["given"]), nontrivial=True,
+                      sample={"cmd": "sx %s --exit-delay %s" % (o["cmd"], o["arg"]), "reaches_startScanEngine_ns": o["got_ns"]})
+            why = spec_parse(o)
+            if why and len(ctx.findings) < 3:
+                o["id"] = "parse-%s-%s" % (o["cmd"].replace(" ", "_"), o["arg"] or "default")
+                report(ctx, o, why, ctx.seed, n)
+        for o in rx_stage(ctx, 10 if quick else 12):
+            ctx.count("rx:%s" % o["err_kind"], ("rx", o["err_kind"], o["n"]), nontrivial=True,
+                      sample={"consecutive_temporary_errors": o["n"], "kind": o["err_kind"],
+                              "delay_to_processor_ns": o["processed_at"] - o["frame_at"]})
+            why = spec_rx(o)
+            if why and len(ctx.findings) < 3:
+                report(ctx, o, why, ctx.seed, n)
     erows = []
     if os.path.exists(os.path.join(verif.HBIN, "c16")):
         late = list(range(len(E2E), len(ALL_E2E)))
@@ -399,6 +578,8 @@ def run(ctx):
             why = spec_cmd(o)
             if why:
                 report(ctx, o, why, ctx.seed, n)
+        if not quick:
+            deep_stage(ctx, n)
     if model_ok and rows:
         nshards = 4 if quick else 16
         size = max(1, (len(rows) + nshards - 1) // nshards)
@@ -431,6 +612,8 @@ def run(ctx):
                     if why and bad < 3:
                         bad += 1
                         report(ctx, o, why, sd, 200)
+            if not bad:
+                deep_stage(ctx, 200, long_run=False)
             break
     return ctx.finish(rule=RULE)
 
@@ -443,6 +626,19 @@ def replay(ctx, path):
     i = r["input"]
     if not ctx.harness_build("c16"):
         return 1
+    if i.get("kind") in ("parse", "rx", "quietphase"):
+        obs = r["observed"]
+        if i["kind"] == "parse":
+            got = [o for o in parse_stage(ctx) if o["cmd"] == obs["cmd"] and o["arg"] == obs["arg"] and o["given"] == obs["given"]]
+            why = next((w for w in map(spec_parse, got) if w), None)
+        elif i["kind"] == "rx":
+            got = [o for o in rx_stage(ctx, 12) if o["err_kind"] == obs["err_kind"] and o["n"] == obs["n"]]
+            why = next((w for w in map(spec_rx, got) if w), None)
+        else:
+            got = quiet_phase_runs(ctx, quiets_ms=(obs["quiet_ms"],))
+            why = next((w for w in map(spec_quietphase, got) if w), None)
+        print("replay %s: %s" % (i["kind"], why or "property holds on this run"))
+        return 1 if why else 0
     if i.get("kind") == "cmd":
         got = cmd_runs(ctx, [i["id"]], delay_ms=r["observed"].get("delay_ms", 900))
         why = spec_cmd(got[0]) if got else None
